@@ -101,6 +101,14 @@ reg("C10", "exploration",
     "instance are compared with their model and no container may be shared. Sampling.",
     BASE_NOTE, "DESIGN.md 3/C10")
 
+reg("C11", "exploration",
+    "Hypothesis histories vs an interpreter of the documented deferral semantics (chain resolution, write-through vs local override), read coherence after every step, exactly-one/none notification oracle",
+    "Generated deferring classes (DelegatesTo / PrototypedFrom x same-name / explicit / 'pre_*' / '*' styles, optional second "
+    "hop of the same kind, 3 candidate delegates per hop) and histories of valid/invalid assignments through the deferring "
+    "attribute, assignments on any candidate delegate and on unrelated attributes, delegate swaps and deletion of the local "
+    "value. Sampling; mixed-kind chains and modify/listenable options are not covered.",
+    BASE_NOTE, "DESIGN.md 3/C11")
+
 
 def main():
     props = [json.loads(l) for l in open(os.path.join(ROOT, "properties.jsonl"))]
